@@ -11,16 +11,8 @@ package dspinner
 // (muts and faulted are declared in dsindex, the lower package)
 //@ ghost dirtyMarked() bool
 
-// ix(self, key, value): the index x holds the entry (key, value)
-//@ ghost ix(x dsindex.Indexer, key string, value string) bool
-
+// (ghost ix and the Indexer method contracts are declared in dsindex, the owner of the interface)
 // reads
-//@ func iface github.com/ipfs/boxo/pinning/pinner/dsindex.Indexer.HasAny
-//@   modifies faulted()
-//@   ensures (err != nil ==> faulted()) && (err == nil ==> faulted() == old(faulted()))
-//@ func iface github.com/ipfs/boxo/pinning/pinner/dsindex.Indexer.Search
-//@   modifies faulted()
-//@   ensures (err != nil ==> faulted()) && (err == nil ==> faulted() == old(faulted()))
 //@ func iface github.com/ipfs/go-datastore.Datastore.Get
 //@   modifies faulted()
 //@   ensures (err != nil ==> faulted()) && (err == nil ==> faulted() == old(faulted()))
@@ -28,18 +20,6 @@ package dspinner
 //@   modifies faulted()
 //@   ensures (err != nil ==> faulted()) && (err == nil ==> faulted() == old(faulted()))
 // single mutations are atomic: they apply completely or fail without effect
-//@ func iface github.com/ipfs/boxo/pinning/pinner/dsindex.Indexer.Add
-//@   modifies ix(self, key, value), muts(), faulted()
-//@   ensures err == nil ==> ix(self, key, value) && muts() == old(muts()) + 1 && faulted() == old(faulted())
-//@   ensures err != nil ==> ix(self, key, value) == old(ix(self, key, value)) && muts() == old(muts()) && faulted()
-//@ func iface github.com/ipfs/boxo/pinning/pinner/dsindex.Indexer.Delete
-//@   modifies ix(self, key, value), muts(), faulted()
-//@   ensures err == nil ==> !ix(self, key, value) && muts() == old(muts()) + 1 && faulted() == old(faulted())
-//@   ensures err != nil ==> ix(self, key, value) == old(ix(self, key, value)) && muts() == old(muts()) && faulted()
-//@ func iface github.com/ipfs/boxo/pinning/pinner/dsindex.Indexer.DeleteKey
-//@   modifies ix(self, key), muts(), faulted()
-//@   ensures err == nil ==> all(v string, !ix(self, key, v)) && faulted() == old(faulted())
-//@   ensures err != nil ==> faulted()
 // (Datastore.Put / Datastore.Delete: same contract, declared in dsindex, the lower package)
 
 //@ func (*pinner).setDirty
